@@ -12,6 +12,7 @@ open Options
 open OutViews
 open Plain
 open Pragma
+open SiteCheck
 open State
 open Str
 open String
@@ -578,20 +579,102 @@ let extras c model_out =
                     true, false)), (String ((Ascii (true, true, false, false,
                     true, true, true, false)), EmptyString)))))))))) alt)))
               (sort_strs rdiags))
-     else true))) :: (((s_ (String ((Ascii (true, false, false, false, false,
-                         true, true, false)), (String ((Ascii (false, false,
-                         true, true, false, true, true, false)), (String
+     else true))) :: (((s_ (String ((Ascii (true, true, false, false, true,
+                         true, true, false)), (String ((Ascii (true, false,
+                         false, true, false, true, true, false)), (String
                          ((Ascii (false, false, true, false, true, true,
-                         true, false)), (String ((Ascii (true, true, true,
-                         true, true, false, true, false)), (String ((Ascii
-                         (true, true, false, false, true, true, true,
-                         false)), (String ((Ascii (false, false, true, false,
-                         true, true, true, false)), (String ((Ascii (false,
-                         true, false, false, true, true, true, false)),
-                         (String ((Ascii (true, false, false, true, false,
-                         true, true, false)), (String ((Ascii (false, false,
-                         false, false, true, true, true, false)),
-                         EmptyString))))))))))))))))))),
+                         true, false)), (String ((Ascii (true, false, true,
+                         false, false, true, true, false)),
+                         EmptyString))))))))),
+  (match find_site input with
+   | Some el ->
+     (match find_site real with
+      | Some o ->
+        (match app
+                 (check_site e (S (S (S (S (S (S (S (S (S (S (S (S (S (S (S
+                   (S (S (S (S (S (S (S (S (S (S (S (S (S (S (S (S (S (S (S
+                   (S (S (S (S (S (S
+                   O)))))))))))))))))))))))))))))))))))))))) el o)
+                 (order_fail e el o) with
+         | [] ->
+           (Npos (Coq_xI (Coq_xO (Coq_xO (Coq_xO (Coq_xI Coq_xH)))))) :: []
+         | s :: l ->
+           join ((Npos (Coq_xO (Coq_xO (Coq_xI (Coq_xI (Coq_xO
+             Coq_xH)))))) :: []) (s :: l))
+      | None ->
+        s_ (String ((Ascii (false, true, true, true, false, true, true,
+          false)), (String ((Ascii (true, true, true, true, false, true,
+          true, false)), (String ((Ascii (false, true, true, true, false,
+          true, true, false)), (String ((Ascii (true, false, true, false,
+          false, true, true, false)), EmptyString)))))))))
+   | None ->
+     s_ (String ((Ascii (false, true, true, true, false, true, true, false)),
+       (String ((Ascii (true, true, true, true, false, true, true, false)),
+       (String ((Ascii (false, true, true, true, false, true, true, false)),
+       (String ((Ascii (true, false, true, false, false, true, true, false)),
+       EmptyString)))))))))) :: (((s_ (String ((Ascii (true, true, false,
+                                    false, true, true, true, false)), (String
+                                    ((Ascii (true, false, false, true, false,
+                                    true, true, false)), (String ((Ascii
+                                    (false, false, true, false, true, true,
+                                    true, false)), (String ((Ascii (true,
+                                    false, true, false, false, true, true,
+                                    false)), (String ((Ascii (true, true,
+                                    true, true, true, false, true, false)),
+                                    (String ((Ascii (true, false, true, true,
+                                    false, true, true, false)), (String
+                                    ((Ascii (true, true, true, true, false,
+                                    true, true, false)), (String ((Ascii
+                                    (false, false, true, false, false, true,
+                                    true, false)), (String ((Ascii (true,
+                                    false, true, false, false, true, true,
+                                    false)), (String ((Ascii (false, false,
+                                    true, true, false, true, true, false)),
+                                    EmptyString))))))))))))))))))))),
+  (match find_site input with
+   | Some el ->
+     (match find_site model with
+      | Some o ->
+        (match app
+                 (check_site e (S (S (S (S (S (S (S (S (S (S (S (S (S (S (S
+                   (S (S (S (S (S (S (S (S (S (S (S (S (S (S (S (S (S (S (S
+                   (S (S (S (S (S (S
+                   O)))))))))))))))))))))))))))))))))))))))) el o)
+                 (order_fail e el o) with
+         | [] ->
+           (Npos (Coq_xI (Coq_xO (Coq_xO (Coq_xO (Coq_xI Coq_xH)))))) :: []
+         | s :: l ->
+           join ((Npos (Coq_xO (Coq_xO (Coq_xI (Coq_xI (Coq_xO
+             Coq_xH)))))) :: []) (s :: l))
+      | None ->
+        s_ (String ((Ascii (false, true, true, true, false, true, true,
+          false)), (String ((Ascii (true, true, true, true, false, true,
+          true, false)), (String ((Ascii (false, true, true, true, false,
+          true, true, false)), (String ((Ascii (true, false, true, false,
+          false, true, true, false)), EmptyString)))))))))
+   | None ->
+     s_ (String ((Ascii (false, true, true, true, false, true, true, false)),
+       (String ((Ascii (true, true, true, true, false, true, true, false)),
+       (String ((Ascii (false, true, true, true, false, true, true, false)),
+       (String ((Ascii (true, false, true, false, false, true, true, false)),
+       EmptyString)))))))))) :: (((s_ (String ((Ascii (true, false, false,
+                                    false, false, true, true, false)),
+                                    (String ((Ascii (false, false, true,
+                                    true, false, true, true, false)), (String
+                                    ((Ascii (false, false, true, false, true,
+                                    true, true, false)), (String ((Ascii
+                                    (true, true, true, true, true, false,
+                                    true, false)), (String ((Ascii (true,
+                                    true, false, false, true, true, true,
+                                    false)), (String ((Ascii (false, false,
+                                    true, false, true, true, true, false)),
+                                    (String ((Ascii (false, true, false,
+                                    false, true, true, true, false)), (String
+                                    ((Ascii (true, false, false, true, false,
+                                    true, true, false)), (String ((Ascii
+                                    (false, false, false, false, true, true,
+                                    true, false)),
+                                    EmptyString))))))))))))))))))),
   (b2s
     (if alt_ok
      then jv_eqb (enc (strip_hints real))
@@ -603,7 +686,7 @@ let extras c model_out =
               (true, false, true, false, true, true, true, false)), (String
               ((Ascii (false, false, true, false, true, true, true, false)),
               EmptyString)))))))))))) alt)
-     else true))) :: []))))))))))
+     else true))) :: []))))))))))))
 
 (** val regex_table : jv -> str -> bool **)
 
